@@ -199,7 +199,9 @@ func c17ClassifyEval(tier string, _ int) CaseResult {
 			cr.Violations = append(cr.Violations, V(key, format, a...))
 		}
 	}
-	bodies := []string{"", "Session not found or expired", "upstream said 500 Internal Server Error", "retry after 30 seconds", "connection reset by peer", "see port 5001 ", "code 503"}
+	bodies := []string{"", "Session not found or expired", "upstream said 500 Internal Server Error", "retry after 30 seconds", "connection reset by peer", "see port 5001 ", "code 503",
+		// a gateway or proxy that relays what its upstream said
+		"upstream: HTTP request failed: status code 503", "upstream answered status code 404, body: no such route", "status code 429 then status code 200", "Status Code 500"}
 	for status := 100; status <= 599; status++ {
 		for _, tmpl := range []string{"streamable", "legacy"} {
 			for bi, body := range bodies {
